@@ -991,8 +991,10 @@ func httpStoreReplay(task engine.SeqTask) (res engine.SeqResult) {
 			for qi, q := range pitQueries {
 				got, _, ok := o.queryPage(map[string]interface{}{"startingEntities": pitStarts, "predicate": q.pred, "inverse": q.inv, "limit": 0})
 				if !ok {
-					res.HarnessEr = "current-state POST /query failed"
-					return
+					// the predicate has never been used in the hub (the handler answers "could not load predicate"):
+					// nothing to pin for this query at this step
+					pitPrev[qi] = map[string]int{}
+					continue
 				}
 				if t != 0 {
 					pitInst = append(pitInst, pitInstant{t - 1, fmt.Sprintf("just-before-commit-%d", i+1), qi, pitPrev[qi]},
